@@ -395,7 +395,9 @@ var Entries = []*Entry{
 	}},
 	{Name: "imagetype.ScanBuf", Call: func(env *Env, r *world.SimReader, res *Result) {
 		rk := env.RK
-		if rk < RKBufio4096 {
+		if rk < RKBufio4096 || rk == RKBufio16 {
+			// ScanBuf is handed the caller's own *bufio.Reader and cannot re-wrap it without
+			// consuming from it: a reader that can hold the 24-byte window is the caller's part
 			rk = RKBufio4096
 		}
 		e2 := *env
